@@ -14,11 +14,37 @@ SEEDED = os.path.join(V, "seeded")
 args = sys.argv[1:]
 inplace = "--inplace" in args
 tier = "quick"
+part = None
+for a in args:
+    if a.startswith("--part="):
+        part = tuple(int(x) for x in a.split("=")[1].split("/"))      # --part=i/N : every N-th seeded change, own build dir
+    if a.startswith("--jobs="):
+        # fan out over N worker processes, then merge their result files
+        n = int(a.split("=")[1])
+        rest = [x for x in args if not x.startswith("--jobs=")]
+        procs = [subprocess.Popen([sys.executable, os.path.abspath(__file__), f"--part={i}/{n}"] + rest) for i in range(n)]
+        for pr in procs:
+            pr.wait()
+        res_path = os.path.join(SEEDED, "RESULTS.json")
+        results = json.load(open(res_path)) if os.path.exists(res_path) else {}
+        for i in range(n):
+            pp = os.path.join(V, "build", f"seeded-results.part{i}.json")
+            if os.path.exists(pp):
+                results.update(json.load(open(pp)))
+                os.remove(pp)
+        json.dump(results, open(res_path, "w"), indent=1, sort_keys=True)
+        sys.exit(0)
 ids = [a for a in args if not a.startswith("--")]
 if not ids:
     ids = sorted(d for d in os.listdir(SEEDED) if os.path.isdir(os.path.join(SEEDED, d)))
 res_path = os.path.join(SEEDED, "RESULTS.json")
 results = json.load(open(res_path)) if os.path.exists(res_path) else {}
+bdir = "seeded-build"
+if part:
+    ids = [x for j, x in enumerate(ids) if j % part[1] == part[0]]
+    res_path = os.path.join(V, "build", f"seeded-results.part{part[0]}.json")
+    results = {}
+    bdir = f"seeded-build-{part[0]}"
 for sid in ids:
     d = os.path.join(SEEDED, sid)
     meta = json.load(open(os.path.join(d, "meta.json")))
@@ -29,14 +55,14 @@ for sid in ids:
         repo = "/repo"
         subprocess.check_call(["git", "-C", repo, "apply", patch])
     else:
-        repo = f"/tmp/seedrun-{os.path.basename(V)}-{sid}"
+        repo = f"/tmp/seedrun-{os.path.basename(V)}-{sid}"  # one scratch worktree per seeded change
         subprocess.call(["git", "-C", "/repo", "worktree", "remove", "--force", repo], stderr=subprocess.DEVNULL)
         subprocess.check_call(["git", "-C", "/repo", "worktree", "add", "-q", "--detach", repo, "HEAD"])
         subprocess.check_call(["git", "-C", repo, "apply", patch])
     try:
         for pid in props:
             env = dict(os.environ, VERIF_REPO=repo, VERIF_EVIDENCE_DIR=os.path.join(V, "build", "seeded-evidence", sid),
-                       VERIF_BUILD_DIR=os.path.join(V, "build", "seeded-build"), VERIF_GOCACHE=os.environ.get("VERIF_GOCACHE", os.path.join(V, "build", "gocache")))
+                       VERIF_BUILD_DIR=os.path.join(V, "build", bdir), VERIF_GOCACHE=os.environ.get("VERIF_GOCACHE", os.path.join(V, "build", "gocache")))
             os.makedirs(env["VERIF_EVIDENCE_DIR"], exist_ok=True)
             t0 = time.time()
             p = subprocess.run([os.path.join(V, "check"), pid, "--tier", tier], cwd=V, env=env, stdout=subprocess.PIPE,
